@@ -39,6 +39,14 @@ theorem new_error_iff (bits : Nat) (o : Order) (data : List Nat) (size : Sz) (e 
     simp only [hb, ↓reduceIte, Except.error.injEq, ne_eq, h, not_false_eq_true, true_and]
     exact eq_comm
 
+/-- What `new` establishes, with the range facts, is `WF`. -/
+theorem wf_of_new {bits : Nat} {o : Order} {data : List Nat} {size : Sz} {im : ImageRaw}
+    (h : new bits o data size = .ok im) (hb : validBits bits = true)
+    (hw : size.w ≤ 2147483647) (hh : size.h ≤ 2147483647) (hf : Fits bits data) : im.WF := by
+  rw [new_ok_iff] at h
+  obtain ⟨hl, rfl⟩ := h
+  exact ⟨hb, hl, hw, hh, hf⟩
+
 theorem newConst_eq (bits : Nat) (o : Order) (data : List Nat) (size : Sz) :
     newConst bits o data size =
       if data.length = bytesPerRow size.w bits * size.h then some ⟨bits, o, data, size⟩ else none := by
